@@ -42,7 +42,10 @@ class Optimizer(NodeTransformer):
                     lineno=node.lineno,
                     environment=self.environment,
                 )
-            except nodes.Impossible:
+            except Exception:
+                # Impossible, or an error while evaluating the constant
+                # expression, which is raised when it is evaluated at
+                # runtime instead.
                 pass
 
         return node
